@@ -2800,6 +2800,154 @@ def tb_cases(ctx):
                    nontrivial=any(st['raised'] is None for st in desc['steps']))
 
 
+# ----------------------------------------------------------------------------- chains: growth calls with NO read in between
+def _chain_ops(depth, base, kinds):
+    """Concrete calls for a chain of op kinds; labels are made fresh per position so that every kind keeps its meaning."""
+    import static_frame as sf
+    tail = (1,) if depth == 2 else ('x', 1)
+    last = list(base[-1])
+    ops = []
+    for k, kind in enumerate(kinds):
+        if kind == 'append-new-outer':
+            ops.append(('append', (f'n{k}',) + tail))
+        elif kind == 'append-under-last':
+            ops.append(('append', tuple(last[:-1]) + (100 + k,)))
+        elif kind == 'append-dup':
+            ops.append(('append', tuple(base[0])))
+        elif kind == 'extend':
+            ops.append(('extend', [(f'e{k}a',) + tail, (f'e{k}a',) + tail[:-1] + (2,), (f'e{k}b',) + tail]))
+        elif kind == 'extend-go':
+            ops.append(('extend', [(f'g{k}',) + tail], depth, True))
+        elif kind == 'extend-rejected':
+            ops.append(('extend', [(f'r{k}',) + tail, (base[0][0],) + tail[:-1] + (77,)]))
+        elif kind == 'contains-settled':
+            ops.append(('contains', tuple(base[0])))
+        # the last label moves when an accepted call appends
+        if kind == 'append-new-outer':
+            last = [f'n{k}'] + list(tail)
+        elif kind == 'append-under-last':
+            last = last[:-1] + [100 + k]
+        elif kind == 'extend':
+            last = [f'e{k}b'] + list(tail)
+        elif kind == 'extend-go':
+            last = [f'g{k}'] + list(tail)
+    return ops
+
+
+CHAIN_KINDS = ['append-new-outer', 'append-under-last', 'extend', 'extend-go', 'extend-rejected', 'append-dup', 'contains-settled']
+
+
+def hier_chain_history(labels, depth, ops):
+    ih = _make_ih(labels, depth)
+    tree0 = _tree_lit(ih._levels)
+    recs, steps = [], []
+    for op in ops:
+        if op[0] == 'append':
+            exc = _call(lambda: ih.append(op[1]))
+            ol = f'(HAppend {lit.vlist(list(op[1]))})'
+        elif op[0] == 'extend':
+            other = _make_ih(op[1], depth, go=bool(len(op) > 3 and op[3]))
+            exc = _call(lambda: ih.extend(other))
+            ol = f'(HExtend (mk_hgo {_tree_lit(other._levels)} {lit.z(other.depth)}))'
+        else:
+            exc = _call(lambda: op[1] in ih)          # membership under a settled outer label: does not flush
+            ol = 'HRead'
+        recs.append(f'({ol}, {_out(exc)})')
+        steps.append({'op': [op[0], _j(op[1])], 'raised': None if exc is None else type(exc).__name__})
+    try:
+        snap = snap_hier(ih, True)
+    except Exception as e:  # noqa
+        snap = ([('unreadable', type(e).__name__)], -1, False)
+    final = _hseen_lit(snap)
+    desc = {'container': 'IndexHierarchyGO', 'labels': _j(labels), 'depth': depth, 'chain (no read in between)': steps,
+            'seen at the end': {'labels': _j(snap[0]), 'len': snap[1], 'coherent': snap[2]}}
+    h = lit.lst(recs)
+    return desc, f'check_hgo_M_chain {tree0} {lit.z(depth)} {h} {final}', f'check_hgo_S_chain {lit.z(depth)} {_tuples_lit(labels)} {h} {final}'
+
+
+def hier_frame_chain(depth, labels, ops):
+    """FrameGO with IndexHierarchyGO columns: a chain of growth calls with no read in between, everything read at the end."""
+    import static_frame as sf
+    n = len(labels)
+    f = sf.FrameGO(np.arange(2 * n).reshape(2, n), index=('r0', 'r1'), columns=sf.IndexHierarchyGO.from_labels(labels))
+    want = [tuple(l) for l in labels]
+    data = {}
+    steps = []
+    for k, op in enumerate(ops):
+        if op[0] == 'append':                          # f[key] = values
+            key = tuple(op[1])
+            vals = np.array([100 + k, 200 + k])
+            exc = _call(lambda: f.__setitem__(key, vals))
+            given = [(key, vals.tolist())]
+        elif op[0] == 'extend':
+            keys = [tuple(x) for x in op[1]]
+            arr = np.arange(2 * len(keys)).reshape(2, len(keys)) + 1000 * (k + 1)
+            other = sf.Frame(arr, index=('r0', 'r1'), columns=sf.IndexHierarchy.from_labels(keys))
+            exc = _call(lambda: f.extend(other))
+            given = [(key, arr[:, j].tolist()) for j, key in enumerate(keys)]
+        else:
+            exc = _call(lambda: tuple(op[1]) in f.columns)
+            given = []
+        steps.append({'op': [op[0], _j(op[1])], 'raised': None if exc is None else type(exc).__name__})
+        if exc is None:
+            for key, vals in given:
+                want.append(key)
+                data[key] = vals
+    problem = None
+    try:
+        shape = tuple(f.shape)
+        ncol = len(f.columns)
+        got = [tuple(_j(x) for x in l) for l in f.columns]
+        vals = [tuple(r) for r in f.columns.values.tolist()]
+        if got != want:
+            problem = f'after the chain the columns are {got[n - 1:]}, expected {want[n - 1:]}'
+        elif shape != (2, len(want)) or ncol != len(want) or vals != want:
+            problem = f'labels and data out of step: shape {shape}, len(columns) {ncol}, columns.values {vals[-3:]}, {len(want)} labels expected'
+        else:
+            for key, v in data.items():
+                if key not in f.columns or f[key].values.tolist() != v:
+                    problem = f'f[{key!r}] does not hold the data given for it'
+                    break
+            if not problem and [k_ for k_, _ in f.to_pairs(0)] != want:
+                problem = 'to_pairs omits or reorders columns'
+            if not problem and f.values[:, :n].tolist() != np.arange(2 * n).reshape(2, n).tolist():
+                problem = 'the columns present before the chain changed'
+    except Exception as e:  # noqa
+        problem = f'after the chain the frame cannot be read: {type(e).__name__}: {str(e)[:100]}'
+    return {'container': 'FrameGO with IndexHierarchyGO columns', 'depth': depth, 'columns': _j(labels),
+            'chain (no read in between)': steps}, problem
+
+
+def chain_cases(ctx):
+    rng = ctx.rng
+    bases = {2: [('a', 1), ('a', 2), ('b', 1)], 3: [('a', 'x', 1), ('a', 'y', 1), ('b', 'x', 1)]}
+    chains = []
+    for n in (2, 3):
+        chains += list(itertools.product(CHAIN_KINDS, repeat=n))
+    if ctx.tier == 'thorough':
+        chains += list(itertools.product(CHAIN_KINDS, repeat=4))
+    else:
+        chains += [tuple(rng.choice(CHAIN_KINDS) for _ in range(rng.choice([4, 5]))) for _ in range(150)]
+    for depth in (2, 3):
+        for kinds in chains:
+            if depth == 3 and len(kinds) == 3 and ctx.tier == 'quick' and rng.random() > 0.4:
+                continue
+            ops = _chain_ops(depth, bases[depth], kinds)
+            try:
+                desc, m, s = hier_chain_history(bases[depth], depth, ops)
+                yield Case('api:IndexHierarchyGO-chains', desc, m=m, s=s, tags={'container': 'IndexHierarchyGO'},
+                           nontrivial=any(st['raised'] is None and st['op'][0] != 'contains' for st in desc['chain (no read in between)']))
+            except Exception as e:  # noqa
+                yield _escaped('api:IndexHierarchyGO-chains', {'depth': depth, 'chain': list(kinds)}, e, {'container': 'IndexHierarchyGO'})
+            ctx.count(f'chains:depth{depth}:len{len(kinds)}')
+            try:
+                desc, problem = hier_frame_chain(depth, bases[depth], ops)
+                yield Case('api:FrameGO-hier-columns-chains', desc, py_fail=problem, tags={'container': 'FrameGO-hier-columns'},
+                           nontrivial=any(st['raised'] is None for st in desc['chain (no read in between)']))
+            except Exception as e:  # noqa
+                yield _escaped('api:FrameGO-hier-columns-chains', {'depth': depth, 'chain': list(kinds)}, e, {'container': 'FrameGO-hier-columns'})
+
+
 # ----------------------------------------------------------------------------- generate(repo): decision tables
 def _u(node):
     import ast
@@ -3330,6 +3478,7 @@ def cases(ctx):
     yield from frame_cases(ctx)
     yield from hier_cases(ctx)
     yield from hier_frame_cases(ctx)
+    yield from chain_cases(ctx)
     yield from typed_cases(ctx)
     yield from routes_cases(ctx)
     yield from tb_cases(ctx)
